@@ -63,6 +63,9 @@ pub struct State {
     pub weak_filter: WeakLinkFilter,
     pub cc: LinkCcController,
     pub binder: Arc<dyn UplinkBinder>,
+    /// the receiver's host as given on the command line, and whether a requested name had to be replaced
+    pub host: String,
+    pub host_fallback: bool,
     recv_buf: Vec<u8>,
     /// datagrams handed to the instant-forward channel (production forwards them to the client)
     pub instant_forwarded: Vec<Vec<u8>>,
@@ -96,6 +99,18 @@ impl Shell {
     /// and the initial housekeeping pass are separate calls so that a property
     /// can choose to run them (`start_probing`, `housekeeping`).
     pub fn new(addrs: &[u8], cfg: ConfigSnapshot) -> Shell {
+        Self::new_with_host(addrs, cfg, "127.0.0.1")
+    }
+
+    /// `host`: how the receiver is named on the command line ("127.0.0.1", or a name such as "localhost"; the name
+    /// is used only where it resolves to 127.0.0.1 first - otherwise the literal is used and `host_fallback` is set).
+    pub fn new_with_host(addrs: &[u8], cfg: ConfigSnapshot, host: &str) -> Shell {
+        let resolves = host == "127.0.0.1" || {
+            use std::net::ToSocketAddrs;
+            (host, 1u16).to_socket_addrs().ok().and_then(|mut a| a.next()).is_some_and(|a| a.ip() == IpAddr::V4(std::net::Ipv4Addr::LOCALHOST))
+        };
+        let host_fallback = !resolves;
+        let host = if resolves { host.to_string() } else { "127.0.0.1".to_string() };
         let rt = tokio::runtime::Builder::new_current_thread()
             .enable_io()
             .enable_time()
@@ -114,7 +129,7 @@ impl Shell {
         let ips: Vec<IpAddr> = addrs.iter().map(|k| link_ip(*k)).collect();
         let (conns, conn_io, listener) = rt.block_on(async {
             let mut conn_io: ConnIoMap = HashMap::new();
-            let conns = create_connections_from_ips(&ips, "127.0.0.1", rx_port, &binder, &mut conn_io).await;
+            let conns = create_connections_from_ips(&ips, &host, rx_port, &binder, &mut conn_io).await;
             let listener = UdpSocket::bind("127.0.0.1:0").await.expect("bind listener");
             (conns, conn_io, Arc::new(listener))
         });
@@ -147,6 +162,8 @@ impl Shell {
                 weak_filter: WeakLinkFilter::new(),
                 cc: LinkCcController::new(),
                 binder,
+                host,
+                host_fallback,
                 recv_buf: vec![0u8; srtla_protocol::MTU],
                 instant_forwarded: Vec::new(),
                 housekeeping_error: None,
@@ -367,11 +384,12 @@ impl Shell {
         self.sync_clock();
         let Shell { rt, st } = self;
         let port = st.rx_port;
+        let host = st.host.clone();
         rt.block_on(apply_connection_changes(
             &mut st.conns,
             &mut st.conn_io,
             addrs,
-            "127.0.0.1",
+            &host,
             port,
             &mut st.last_selected,
             &mut st.seq_tracker,
